@@ -1,7 +1,7 @@
 (** * C02 through the OpenAPI pipeline: the scores of an accepted compute form a distribution
     (requests without distrust: non-negative and summing to 1). *)
 From ET Require Export Corr.OapiCase.
-From ET Require Import Proofs.OapiSpec.
+From ET Require Import Proofs.OapiSpec Model.Csv.
 
 Inductive case :=
 | ComputeReq (setup : list (N * cimat)) (q : creq) (resp_compute resp_stats : cresp) (stats : option cstats).
@@ -19,6 +19,7 @@ Definition local_nonneg (setup : list (N * cimat)) (q : creq) : bool :=
   | RInline m => mat_nonneg m
   | RStored id => forallb (fun p : N * cimat => negb (N.eqb (fst p) id) || mat_nonneg (snd p)) setup
   | ROther => true
+  | RFile c => forallb (fun r : list (@Csv.field F64) => match r with [_; _; fv] => match @Csv.f_float F64 fv with Some v => negb (PrimFloat.ltb v 0) | None => true end | _ => true end) (Csv.recs c)
   end.
 Definition fsum (l : list float) : float := fold_left PrimFloat.add l 0%float.
 Definition scores_ok (nonneg : bool) (r : cresp) : bool :=
